@@ -1,5 +1,6 @@
 # C14 — count-min never under-estimates and is linear under merge
-PROP = 'C14'
+PROP = "C14"
+READY = True
 COQ_PROPS = ['Properties_C14']
 RULE = ('operation scripts over several count_min_sketch<int64_t> registers: configurations num_hashes 1..8 (and 255 once), '
         'num_buckets 3..64 incl. non-powers of two, refused configurations, integer and string items from a small universe '
